@@ -233,6 +233,7 @@ def _family2(seed):
         tab2 = _table_params(rng, file_id=1, level_cols=level_cols)
         observed["tables"] = [tab_o, tab2]
         observed["conf"]["prefixes"] = rng.sample(pool_px, 2)
+        observed["sqlite"] = False  # one result database cannot hold two collections sharing peptide (group) identifiers
     earlier = []
     for j in range(n_e):
         same = rng.random() < 0.4
@@ -245,6 +246,7 @@ def _family2(seed):
             e["tables"] = [tab, _table_params(rng, file_id=1, level_cols=tab["level_cols"])]
             e["conf"]["prefixes"] = rng.sample(pool_px, 2)
             e["conf"]["file_root"] = observed["conf"].get("file_root", "")
+            e["sqlite"] = False
         r = rng.random()
         if r < (0.5 if multi else 0.75):
             e["fault"] = {"at": rng.randint(0, 70 if multi else 45), "kind": rng.choice([k for k, _ in KINDS]), "frac": rng.choice([0.0, 0.5, 0.999])}
